@@ -7,9 +7,9 @@ CONSTANTS
  Dev = {"status"}
  TrimOn = "match"
  Defect = "none"
- MaxFeeds = 1
+ MaxFeeds = 0
  MaxDials = 2
- MaxTime = 24
+ MaxTime = 12
  MaxSubs = 1
  FeedSet <- FramesLife
  DialSet <- DialAll
